@@ -60,6 +60,12 @@ pub fn guarded<R, F: FnOnce() -> R>(f: F) -> Result<R, String> {
 
 pub fn quiet() {
     std::panic::set_hook(Box::new(|_| {}));
+    static ONCE: std::sync::Once = std::sync::Once::new();
+    ONCE.call_once(|| {
+        if std::env::var("MC_NO_WATCHDOG").is_err() {
+            crate::dets::start_watchdog(30, crate::dets::hang_is_machinery);
+        }
+    });
 }
 
 pub fn fnv(s: &str) -> u64 {
